@@ -42,6 +42,11 @@ const (
 	OpZext
 	OpSext
 	OpUF
+	OpRAdd
+	OpRSub
+	OpRMul
+	OpRLt
+	OpRLe
 )
 
 var opNames = map[Op]string{
@@ -50,6 +55,7 @@ var opNames = map[Op]string{
 	OpBvAdd: "bvadd", OpBvSub: "bvsub", OpBvMul: "bvmul", OpBvUdiv: "bvudiv", OpBvUrem: "bvurem",
 	OpBvSdiv: "bvsdiv", OpBvSrem: "bvsrem", OpBvShl: "bvshl", OpBvLshr: "bvlshr", OpBvAshr: "bvashr",
 	OpBvUlt: "bvult", OpBvUle: "bvule", OpBvSlt: "bvslt", OpBvSle: "bvsle", OpConcat: "concat",
+	OpRAdd: "+", OpRSub: "-", OpRMul: "*", OpRLt: "<", OpRLe: "<=",
 }
 
 // Term is immutable once created. W == 0 means sort Bool, W > 0 means (_ BitVec W).
@@ -334,6 +340,15 @@ func (s *Store) Eq(a, b *Term) *Term {
 	}
 	if a == b {
 		return s.T
+	}
+	if a.W == RealW {
+		if a.IsConst() && b.IsConst() {
+			return s.F // canonical rational strings are hash-consed: different terms, different values
+		}
+		if a.ID > b.ID {
+			a, b = b, a
+		}
+		return s.mk(&Term{Op: OpEq, Args: []*Term{a, b}})
 	}
 	if a.IsConst() && b.IsConst() {
 		return s.Bool(a.Val == b.Val)
